@@ -3,6 +3,8 @@ import CV.Proofs.NodeEvent
 import CV.Proofs.NodeTwoProg
 import CV.Proofs.NodeTwoK
 import CV.Proofs.NodeTwoToy
+import CV.Proofs.NodeTwoFwToy
+import CV.Proofs.NodeTwoGate
 /-
 C19 — Node: remote events run once and return their result; peers cannot harm the loop.
 
@@ -220,7 +222,8 @@ example : feedAll demoProc [] [[123], [125, 126], [126, 126, 123, 125], [126, 12
 
 /-! ## once and back: two protocol instances, two byte streams, arbitrary schedules
 
-The composition (`n2_World`, `n2_step`, `n2_run` in CV/Proofs/NodeTwo.lean) wires the model
+The composition (`n2_World`, `n2_step`, `n2_run`, `n2_stepK` in CV/Model/NodeTwo.lean - core Lean, executed
+by `cvdriver node2` against real endpoints on every run of the check) wires the model
 functions `send`, `recv`, `sendResult`, `poll`, `finish` of a caller A and a callee B back to
 back.  A schedule is any list of steps `send | deliverAB n | answer id | deliverBA n | poll id`:
 where the reads cut the two streams, how sends, reads, handler returns and generator polls
@@ -372,5 +375,147 @@ example (sched : List (Nat × n2_Step)) :
   once_and_back_k_partial (fun _ => n2_toyEnv) _ sched 1 n2_toyCalls rfl n2_toy_hyp
 
 example : (1 : Nat) ≠ 0 := by decide
+
+/-! ## the receive firewall in the two-party world; answers are not mixed
+
+`n2f_Hyp` (CV/Proofs/NodeTwoFw.lean) is `n2_Hyp` without "B's receive firewall accepts every call":
+the verdict `n2f_acc E calls i = E.recvOkB (decoded call i)` is free per call.  A rejected call is
+answered by B's protocol itself, at once, with the empty result (`null`); the handler index of an
+accepted call is its rank among the accepted ones.  `n2f_val i` = what B's handler returned for call
+`i` if it was accepted, `null` otherwise.  Still `_partial`: handlers of *accepted* calls return. -/
+
+/-- **the firewall is a gate** (no hypothesis at all: any bytes, any cuts, any peer, any handlers):
+    at every moment of every schedule, every event that was dispatched on B had been accepted by
+    B's receive firewall - a rejected event is never executed -/
+theorem rejected_never_executed (E : n2_Env) (calls : List Ev) (sched : List n2_Step) :
+    ∀ x ∈ (n2_run E (n2_init calls) sched).fired, E.recvOkB x.1 = true :=
+  n2_run_gate E sched (n2_init calls) (by simp [n2_init])
+
+/-- at every moment, with a firewall that rejects some calls -/
+def SafeFw (E : n2_Env) (calls : List Ev) (w : n2_World) : Prop :=
+  w.fired <+: ((List.range calls.length).filter (n2f_acc E calls)).map
+      (fun i => (decoded E.excl (n2_callEv calls i), n2_idJ i)) ∧
+  (∃ order : List Nat, order.Nodup ∧ (∀ i ∈ order, i < calls.length) ∧
+      w.resolved = order.map (fun i => (i, n2f_val E calls i, J.bool false))) ∧
+  (∃ order : List Nat, order.Nodup ∧ (∀ i ∈ order, (i, n2f_val E calls i, J.bool false) ∈ w.resolved) ∧
+      w.yielded = order.map (fun i => (i, [n2f_val E calls i], n2f_errs E calls i))) ∧
+  w.aborted = false
+
+/-- at rest, with a firewall that rejects some calls -/
+def CompletedFw (E : n2_Env) (calls : List Ev) (w : n2_World) : Prop :=
+  w.fired = ((List.range calls.length).filter (n2f_acc E calls)).map
+      (fun i => (decoded E.excl (n2_callEv calls i), n2_idJ i)) ∧
+  w.resolved.Perm ((List.range calls.length).map (fun i => (i, n2f_val E calls i, J.bool false))) ∧
+  (∀ p ∈ w.a.pending, p.finished = true ∧ p.id < calls.length ∧
+      p.values = [n2f_val E calls p.id] ∧ p.errors = n2f_errs E calls p.id) ∧
+  w.a.buf = [] ∧ w.b.buf = [] ∧ w.b.pending = [] ∧ w.aborted = false
+
+/-- **once and back behind a firewall (safety)**: for every firewall verdict per call, every schedule
+    (every cut list of both byte streams, every interleaving, handlers returning in any order), at
+    every moment: exactly the accepted calls are dispatched, at most once, in order; every answer
+    A accepts and every value a waiting caller is resumed with is the one of *its own* call -/
+theorem once_and_back_firewall_safety_partial (E : n2_Env) (calls : List Ev) (H : n2f_Hyp E calls)
+    (sched : List n2_Step) : SafeFw E calls (n2_run E (n2_init calls) sched) :=
+  n2f_safety E calls H sched
+
+/-- **once and back behind a firewall**: at rest every accepted call was dispatched exactly once,
+    no rejected one, and every call - accepted or rejected - got exactly one answer, its own -/
+theorem once_and_back_firewall_partial (E : n2_Env) (calls : List Ev) (H : n2f_Hyp E calls)
+    (sched : List n2_Step) (q : n2_Quiescent (n2_run E (n2_init calls) sched)) :
+    CompletedFw E calls (n2_run E (n2_init calls) sched) :=
+  n2f_complete E calls H sched q
+
+/-- … and after every waiting generator has been resumed once more nothing is left on A -/
+theorem once_and_back_firewall_no_residue_partial (E : n2_Env) (calls : List Ev) (H : n2f_Hyp E calls)
+    (sched : List n2_Step) (q : n2_Quiescent (n2_run E (n2_init calls) sched)) :
+    let w := n2_run E (n2_init calls) (sched ++ (List.range calls.length).map n2_Step.poll)
+    w.a.pending = [] ∧
+      w.yielded.Perm ((List.range calls.length).map (fun i => (i, [n2f_val E calls i], n2f_errs E calls i))) ∧
+      n2_Quiescent w :=
+  n2f_complete_polled E calls H sched q
+
+/-- **answers are not mixed**: k calls in flight, answers interleaved in any order, both streams
+    cut anywhere: whenever a waiting caller is resumed, it is the caller of a call `i` that was
+    made, it is resumed at most once, with exactly one value - the one belonging to call `i` (the
+    return value of the handler run for call `i`, or `null` if B's firewall rejected call `i`) -
+    and with the error flag of that answer -/
+theorem answers_not_mixed_partial (E : n2_Env) (calls : List Ev) (H : n2f_Hyp E calls)
+    (sched : List n2_Step) :
+    let w := n2_run E (n2_init calls) sched
+    (w.yielded.map (·.1)).Nodup ∧
+      ∀ y ∈ w.yielded, y.1 < calls.length ∧ y.2.1 = [n2f_val E calls y.1] ∧ y.2.2 = n2f_errs E calls y.1 := by
+  intro w
+  obtain ⟨_, ⟨ro, _, hro, hres⟩, ⟨yo, hyn, hyr, hy⟩, _⟩ := n2f_safety E calls H sched
+  have hy' : w.yielded = yo.map (n2f_expYield E calls) := hy
+  refine ⟨?_, ?_⟩
+  · rw [hy', List.map_map]
+    have : ((fun x : Nat × List J × J => x.1) ∘ n2f_expYield E calls) = id := by
+      funext i; rfl
+    rw [this, List.map_id]; exact hyn
+  · intro y hyy
+    rw [hy'] at hyy
+    obtain ⟨i, hi, rfl⟩ := List.mem_map.mp hyy
+    refine ⟨?_, rfl, rfl⟩
+    have hm := hyr i hi
+    have hres' : (n2_run E (n2_init calls) sched).resolved = ro.map (n2f_expRes E calls) := hres
+    rw [hres'] at hm
+    obtain ⟨k, hk, hke⟩ := List.mem_map.mp hm
+    have : k = i := congrArg Prod.fst hke
+    subst this
+    exact hro k hk
+
+/-- **no forged result for a rejected call**: a caller whose call B's firewall rejected is never
+    resumed with anything but the empty result - nothing any handler computed (none ran:
+    `rejected_never_executed`), nothing belonging to another call -/
+theorem rejected_call_gets_empty_answer_partial (E : n2_Env) (calls : List Ev) (H : n2f_Hyp E calls)
+    (sched : List n2_Step) :
+    ∀ y ∈ (n2_run E (n2_init calls) sched).yielded, n2f_acc E calls y.1 = false → y.2.1 = [J.null] := by
+  intro y hy hr
+  have h := (answers_not_mixed_partial E calls H sched).2 y hy
+  rw [h.2.1, n2f_rejected_value E calls y.1 hr]
+
+/-- the firewall-free theorems above are the special case "everything accepted" -/
+theorem firewall_hyp_of_open (E : n2_Env) (calls : List Ev) (H : n2_Hyp E calls) : n2f_Hyp E calls :=
+  n2f_hyp_of_hyp H
+
+/-- **k connections, firewalls**: connection j of a server with k connections goes through exactly
+    the two-party run of its own steps, so all of the above holds for it -/
+theorem once_and_back_k_firewall_partial (Es : Nat → n2_Env) (callss : List (List Ev))
+    (sched : List (Nat × n2_Step)) (j : Nat) (calls : List Ev) (hj : callss[j]? = some calls)
+    (H : n2f_Hyp (Es j) calls) :
+    ∃ w, (n2_runK Es (callss.map n2_init) sched)[j]? = some w ∧
+      SafeFw (Es j) calls w ∧ (n2_Quiescent w → CompletedFw (Es j) calls w) ∧
+      (∀ x ∈ w.fired, (Es j).recvOkB x.1 = true) := by
+  refine ⟨n2_run (Es j) (n2_init calls) (n2_proj j sched), ?_, once_and_back_firewall_safety_partial (Es j) calls H _,
+    fun q => once_and_back_firewall_partial (Es j) calls H _ q, rejected_never_executed (Es j) calls _⟩
+  rw [n2_runK_proj]
+  simp [hj]
+
+/-! non-vacuity: `n2f_toyEnv` rejects `pong` (call 1 of 3) and accepts the two `ping`s -/
+
+example : n2f_Hyp n2f_toyEnv n2f_toyCalls := n2f_toy_hyp
+example : n2f_acc n2f_toyEnv n2f_toyCalls 0 = true ∧ n2f_acc n2f_toyEnv n2f_toyCalls 1 = false ∧
+    n2f_acc n2f_toyEnv n2f_toyCalls 2 = true := n2f_toy_acc
+
+/-- three calls in flight, the refusal of call 1 overtakes the answers, handlers return in reverse order -/
+def demoSchedFw : List n2_Step :=
+  [.send, .send, .send, .deliverAB 7, .deliverAB 100, .answer 2, .deliverBA 5, .answer 0, .deliverBA 100,
+   .poll 1, .poll 0, .poll 2]
+
+example : SafeFw n2f_toyEnv n2f_toyCalls (n2_run n2f_toyEnv (n2_init n2f_toyCalls) demoSchedFw) :=
+  once_and_back_firewall_safety_partial _ _ n2f_toy_hyp _
+
+example : ∀ y ∈ (n2_run n2f_toyEnv (n2_init n2f_toyCalls) demoSchedFw).yielded,
+    n2f_acc n2f_toyEnv n2f_toyCalls y.1 = false → y.2.1 = [J.null] :=
+  rejected_call_gets_empty_answer_partial _ _ n2f_toy_hyp _
+
+example : n2f_Hyp n2_toyEnv n2_toyCalls := firewall_hyp_of_open _ _ n2_toy_hyp
+
+example (sched : List (Nat × n2_Step)) :
+    ∃ w, (n2_runK (fun _ => n2f_toyEnv) ([n2f_toyCalls, n2f_toyCalls].map n2_init) sched)[1]? = some w ∧
+      SafeFw n2f_toyEnv n2f_toyCalls w ∧ (n2_Quiescent w → CompletedFw n2f_toyEnv n2f_toyCalls w) ∧
+      (∀ x ∈ w.fired, n2f_toyEnv.recvOkB x.1 = true) :=
+  once_and_back_k_firewall_partial (fun _ => n2f_toyEnv) _ sched 1 n2f_toyCalls rfl n2f_toy_hyp
+
 
 end CV.C19
